@@ -647,10 +647,11 @@ func (v Value) export() interface{} {
 			var t, common reflect.Type
 			for index := range length {
 				name := strconv.FormatInt(int64(index), 10)
-				if !obj.hasProperty(name) {
-					continue
+				// A hole reads as undefined: keep its slot (nil) so that later elements keep their index.
+				var value interface{}
+				if obj.hasProperty(name) {
+					value = obj.get(name).export()
 				}
-				value := obj.get(name).export()
 
 				t = reflect.TypeOf(value)
 
